@@ -410,6 +410,29 @@ class ConstSDE(nn.Module):
         return self.b.unsqueeze(0).expand(y.shape[0], self.d, self.m)
 
 
+class LinTimeSDE(nn.Module):
+    """f == a (1 + t), g == b (1 + t): state-independent, time-dependent (not even in t).  The adjoint state is
+    piecewise constant, and every consistent solver evaluates (1 + t) at nodes inside each step, so gradients
+    are pinned down up to a derived quadrature budget (AdjointDriver!LinStep).  `u` is never used."""
+
+    def __init__(self, noise_type, sde_type, d, m, a, b):
+        super().__init__()
+        self.noise_type = noise_type
+        self.sde_type = sde_type
+        self.d, self.m = d, m
+        self.a = nn.Parameter(a.clone())
+        self.b = nn.Parameter(b.clone())          # (d,) diagonal, else (d, m)
+        self.u = nn.Parameter(torch.ones(3, dtype=F64))
+
+    def f(self, t, y):
+        return (self.a * (1 + t)).unsqueeze(0).expand(y.shape[0], self.d)
+
+    def g(self, t, y):
+        if self.noise_type == "diagonal":
+            return (self.b * (1 + t)).unsqueeze(0).expand(y.shape[0], self.d)
+        return (self.b * (1 + t)).unsqueeze(0).expand(y.shape[0], self.d, self.m)
+
+
 # ----------------------------------------------------------------------------------------------
 # comparisons
 # ----------------------------------------------------------------------------------------------
@@ -471,7 +494,7 @@ def _coef(t, V):
 
 
 def traced_adjoint_run(sde, y0, ts, base_bm, dt, method, adjoint_method, loss_fn, grad_inputs, tick, V=None,
-                       adjoint_params=None, **kwargs):
+                       adjoint_params=None, tick_offset=0, **kwargs):
     """Run the REAL sdeint_adjoint forward + backward with a recording Brownian proxy and a recorder around
     BaseSDESolver.integrate.  Returns (ys, grads, events) where events are dicts in ticks:
        int: ts, sidx (1-based index j with state-part == ys[j] bit for bit, 0 if none), lam (Fraction / None)
@@ -506,13 +529,20 @@ def traced_adjoint_run(sde, y0, ts, base_bm, dt, method, adjoint_method, loss_fn
         loss = loss_fn(ys)
         grads = torch.autograd.grad(loss, grad_inputs, allow_unused=True)
     events = []
+
+    def tk(t):
+        # ticks relative to the scenario's origin: real time = (tick index + tick_offset) * tick, mirrored when negative
+        j = to_tick(t, tick)
+        if j == OFFGRID or tick_offset == 0:
+            return j
+        return j - tick_offset if float(t) >= 0 else j + tick_offset
+
     for e in raw:
         if e[0] == "int":
             info = e[2] or {}
-            events.append(dict(k="int", ts=[to_tick(t, tick) for t in e[1]], sidx=info.get("sidx", 0),
-                               lam=info.get("lam")))
+            events.append(dict(k="int", ts=[tk(t) for t in e[1]], sidx=info.get("sidx", 0), lam=info.get("lam")))
         else:
-            events.append(dict(k="bm", a=to_tick(e[1], tick), b=to_tick(e[2], tick)))
+            events.append(dict(k="bm", a=tk(e[1]), b=tk(e[2])))
     lam_end = None
     if V is not None and y0.requires_grad and grads[0] is not None:
         lam_end = _coef(grads[0], V)
